@@ -3,9 +3,12 @@ package system
 import (
 	"bytes"
 	"math/big"
+	"math/rand"
 
 	"github.com/aergoio/aergo/v2/internal/enc/base58"
+	"github.com/aergoio/aergo/v2/state/statedb"
 	"github.com/aergoio/aergo/v2/types"
+	"github.com/aergoio/aergo/v2/types/dbkey"
 	vf "github.com/aergoio/aergo/v2/zzvf"
 )
 
@@ -91,4 +94,204 @@ func vfVoteList(calls int) {
 		vf.Assert(vfSameVotes(l1, back), "C02.a.votelist.codec")
 	}
 	vf.Observe("n", len(l1.Votes))
+}
+
+// ---------------------------------------------------------------------------------------------
+// C02.a (voting power rank): vpr.pickVotingRewardWinner walks the buckets of vprStore (a Go map from bucket index to
+// voter list) and subtracts the voters' powers from a random number r drawn from the block seed; the winner is paid
+// the voting reward and recorded in the block, so it must be a function of (seed, state) only.
+//
+// The draw r = new(big.Int).Rand(rand.New(rand.NewSource(seed)), total) is a deterministic function of (seed, total)
+// with 0 <= r < total. A test hook (props "hooks": one line after the draw) hands r to vfRandHook; the harness replaces
+// it by an ARBITRARY value in [0, total), the same in every call, on the engine side and natively. So the claim is: for
+// every r in range and every iteration order of the bucket map the winner is the same, and it is the voter found by the
+// walk in canonical order (bucket index ascending, account id descending inside a bucket).
+
+var vfRandOverride func(seed int64, n, r *big.Int) *big.Int
+
+func vfRandHook(seed int64, n, r *big.Int) *big.Int {
+	if vfRandOverride != nil {
+		return vfRandOverride(seed, n, r)
+	}
+	return r
+}
+
+// engine-side replacements (props "stubs") for the math/rand calls whose result the hook overrides anyway
+func vfStubNewSource(seed int64) rand.Source                      { return nil }
+func vfStubRandNew(src rand.Source) *rand.Rand                    { return nil }
+func vfStubBigRand(z *big.Int, rnd *rand.Rand, n *big.Int) *big.Int { return new(big.Int) }
+
+var (
+	vfAddrF = append([]byte{0x03}, make32(0x66)...) // account id in the same bucket (12) as vfAddrA
+	vfAddrG = append([]byte{0x02}, make32(0xb2)...) // bucket 12 too; id(F) < id(G) < id(A)
+)
+
+func vfNewSysScs() *statedb.ContractState {
+	sdb := statedb.NewStateDB(vf.NewKV(), nil, false)
+	scs, err := statedb.GetSystemAccountState(sdb)
+	if err != nil {
+		panic(err)
+	}
+	return scs
+}
+
+// vfPow: a voting power of exactly 11 bytes (2^80 <= p < 2^88; keeps the length split of votingPower.marshal small)
+func vfPow(name string) *big.Int {
+	p := vf.Big(name)
+	lo := new(big.Int).SetBytes(append([]byte{1}, make([]byte, 10)...))
+	hi := new(big.Int).SetBytes(append([]byte{1}, make([]byte, 11)...))
+	vf.Assume(vf.And(p.Cmp(lo) >= 0, p.Cmp(hi) < 0))
+	return p
+}
+
+type vfVoter struct {
+	addr []byte
+	id   types.AccountID
+	pow  *big.Int
+}
+
+// canonical order: bucket index ascending, then account id DESCENDING (vprStore.update inserts a voter before the first
+// element whose id is not greater)
+func vfCanonical(vs []vfVoter) []vfVoter {
+	out := append([]vfVoter{}, vs...)
+	for i := 1; i < len(out); i++ {
+		for j := i; j > 0; j-- {
+			a, b := out[j-1], out[j]
+			ia, ib := getBucketIdx(a.id), getBucketIdx(b.id)
+			if ia > ib || (ia == ib && bytes.Compare(a.id[:], b.id[:]) < 0) {
+				out[j-1], out[j] = b, a
+			}
+		}
+	}
+	return out
+}
+
+func VF_C02_a_vprwinner() {
+	// voters: layout 0 = A, B, F in two buckets (A and F share one); layout 1 (layouts=2) = A, B, C in three buckets
+	addrs := [][]byte{vfAddrA, vfAddrB, vfAddrF}
+	if vf.Choice("layout", vf.Param("layouts", 1)) == 1 {
+		addrs = [][]byte{vfAddrA, vfAddrB, vfAddrC}
+	}
+	nv := 2 + vf.Choice("voters", 2)
+	addrs = addrs[:nv]
+	if nv == 2 && vf.Choice("sameBucket", 2) == 1 {
+		addrs = [][]byte{vfAddrA, vfAddrF} // one bucket only: nothing to permute, the walk inside the list
+	}
+	scs := vfNewSysScs()
+	v := newVpr()
+	var vs []vfVoter
+	vf.NoMapPerm(true) // building: one voter per apply, as the vote commands do
+	for _, a := range addrs {
+		vt := vfVoter{addr: a, id: types.ToAccountID(a), pow: vfPow("power")}
+		v.add(vt.id, vt.addr, vt.pow)
+		if _, err := v.apply(scs); err != nil {
+			panic(err)
+		}
+		vs = append(vs, vt)
+	}
+	vf.NoMapPerm(false)
+	total := v.getTotalPower()
+	rr := vf.Big("rand")
+	vf.Assume(rr.Cmp(total) < 0)
+	vfRandOverride = func(seed int64, n, r *big.Int) *big.Int { return new(big.Int).Set(rr) }
+	defer func() { vfRandOverride = nil }()
+	seed := vf.I64("seed")
+	// expected winner: the canonical walk
+	canon := vfCanonical(vs)
+	isW := make([]bool, len(canon))
+	cum := new(big.Int)
+	prev := false
+	for i, c := range canon {
+		cum = new(big.Int).Add(cum, c.pow)
+		hit := rr.Cmp(cum) < 0
+		isW[i] = vf.And(hit, !prev)
+		prev = hit
+	}
+	expected := func(w []byte) bool {
+		ok := false
+		for i, c := range canon {
+			ok = vf.Or(ok, vf.And(isW[i], bytes.Equal(w, c.addr)))
+		}
+		return ok
+	}
+	w1, err := v.pickVotingRewardWinner(seed)
+	vf.Reach("C02.a.vprwinner")
+	vf.Assert(err == nil, "C02.a.vprwinner.nowinner")
+	// further calls under independently chosen iteration orders (natively the order cannot be chosen: repeat)
+	reps := 1
+	if !vf.Symbolic() {
+		reps = 200
+	}
+	same, canonOK := true, expected(w1)
+	for k := 0; k < reps; k++ {
+		w2, err2 := v.pickVotingRewardWinner(seed)
+		same = vf.And(same, vf.And(err2 == nil, bytes.Equal(w1, w2)))
+		canonOK = vf.And(canonOK, expected(w2))
+	}
+	vf.Assert(same, "C02.a.vprwinner")
+	vf.Assert(canonOK, "C02.a.vprwinner.canonical")
+	vf.Observe("winner", w1)
+}
+
+// C02.a (vpr.apply + vprStore.write): a batch of pending voting power changes applied by ONE apply (range over the
+// changes map, then range over the set of touched buckets) gives, for every iteration order of both maps, the same
+// in-memory rank and the same bucket bytes in the system contract state as applying the changes one by one (where no map
+// has more than one entry, so no order is involved).
+func VF_C02_a_vprapply() {
+	addrs := [][]byte{vfAddrA, vfAddrF, vfAddrB}[:vf.Param("voters", 2)]
+	vf.Assert(getBucketIdx(types.ToAccountID(vfAddrA)) == getBucketIdx(types.ToAccountID(vfAddrF)), "harness.layout")
+	vf.Assert(getBucketIdx(types.ToAccountID(vfAddrA)) == getBucketIdx(types.ToAccountID(vfAddrG)), "harness.layout")
+	var vs []vfVoter
+	for _, a := range addrs {
+		vs = append(vs, vfVoter{addr: a, id: types.ToAccountID(a), pow: vfPow("power")})
+	}
+	// optionally a voter applied earlier that shares the bucket of A and F (its id lies between theirs)
+	pre := vf.Choice("pre", 2) == 1
+	preV := vfVoter{addr: vfAddrG, id: types.ToAccountID(vfAddrG)}
+	if pre {
+		preV.pow = vfPow("power")
+	}
+	build := func(batch bool) (*vpr, *statedb.ContractState) {
+		scs := vfNewSysScs()
+		v := newVpr()
+		vf.NoMapPerm(true)
+		if pre {
+			v.add(preV.id, preV.addr, preV.pow)
+			if _, err := v.apply(scs); err != nil {
+				panic(err)
+			}
+		}
+		for _, vt := range vs {
+			v.add(vt.id, vt.addr, vt.pow)
+			if !batch {
+				if _, err := v.apply(scs); err != nil {
+					panic(err)
+				}
+			}
+		}
+		vf.NoMapPerm(false)
+		if batch {
+			n, err := v.apply(scs) // every order of `range v.changes` and of `range updRows`
+			vf.Assert(err == nil, "C02.a.vprapply")
+			vf.Assert(n == len(vs), "C02.a.vprapply")
+		}
+		return v, scs
+	}
+	ref, refScs := build(false)
+	reps := 1
+	if !vf.Symbolic() {
+		reps = 50
+	}
+	for k := 0; k < reps; k++ {
+		got, gotScs := build(true)
+		vf.Reach("C02.a.vprapply")
+		vfVprSame(got, ref, "C02.a.vprapply", false)
+		for i := uint8(0); i < vprBucketsMax; i++ {
+			x, err1 := gotScs.GetData(dbkey.SystemVpr(i))
+			y, err2 := refScs.GetData(dbkey.SystemVpr(i))
+			vf.Assert(err1 == nil && err2 == nil, "C02.a.vprapply.bytes")
+			vf.Assert(bytes.Equal(x, y), "C02.a.vprapply.bytes")
+		}
+	}
+	vf.Observe("total", ref.getTotalPower())
 }
